@@ -298,6 +298,26 @@ pub fn c09(ctx: &mut Ctx) {
             let sx = render(ts, st, &mut ctx.rng);
             check_parse(ctx, "d", &sx, &expect);
         }
+        // stage level: the public pipeline stages get_ast and fold_exprs on the same token sequence (with indices
+        // of any size, which the lexer can never produce but the public functions accept)
+        if k % 2 == 0 {
+            check_stages(ctx, ts, &expect, if k % 6 == 0 { 1 << 33 } else { 0 });
+        }
+    }
+    // random Expression trees for fold_exprs (empty groups, lone abstractions, big variables): tie only
+    let n_expr = if ctx.thorough { 20000 } else { 3000 };
+    for _ in 0..n_expr {
+        let n = ctx.rng.below(5);
+        let mut words = vec![format!("fold {}", n)];
+        for _ in 0..n {
+            random_expr(&mut ctx.rng, 3, &mut words);
+        }
+        let line = words.join(" ");
+        let r = ctx.op(&line);
+        if r.starts_with("ok ") {
+            ctx.nontrivial(&line);
+        }
+        ctx.count("fold_exprs_random_trees");
     }
     // ---------------- Classic
     let alpha_c = vec![
@@ -465,6 +485,74 @@ fn max_index(t: &Term) -> usize {
         Var(i) => *i,
         Abs(b) => max_index(b),
         App(p) => max_index(&p.0).max(max_index(&p.1)),
+    }
+}
+
+fn random_expr(r: &mut Rng, depth: usize, out: &mut Vec<String>) {
+    let c = r.below(10);
+    if c < 2 {
+        out.push("A".into());
+    } else if c < 6 || depth == 0 {
+        let big: [usize; 4] = [0, 16, 1 << 32, usize::MAX];
+        let i = if r.chance(1, 10) { big[r.below(4)] } else { 1 + r.below(5) };
+        out.push(format!("V{}", i));
+    } else {
+        let n = r.below(4);
+        out.push(format!("S{}", n));
+        for _ in 0..n {
+            random_expr(r, depth - 1, out);
+        }
+    }
+}
+
+/// get_ast and fold_exprs, called directly: together they must accept exactly the well-formed token sequences
+/// and give the denoted term; `bump` is added to every index (the lexer only produces 0..=15, the stages take any)
+fn check_stages(ctx: &mut Ctx, ts: &[Tk], expect: &Option<Term>, bump: usize) {
+    fn bump_term(t: &Term, b: usize) -> Term {
+        match t {
+            Var(i) => Var(i + b),
+            Abs(x) => abs(bump_term(x, b)),
+            App(p) => app(bump_term(&p.0, b), bump_term(&p.1, b)),
+        }
+    }
+    let words: Vec<String> = ts
+        .iter()
+        .map(|t| match t {
+            Tk::Lam(_) => "L".to_string(),
+            Tk::LP => "(".to_string(),
+            Tk::RP => ")".to_string(),
+            Tk::Idx(i) => format!("N{}", i + bump),
+            Tk::Name(_) => "N1".to_string(),
+        })
+        .collect();
+    let line = format!("ast {} {}", words.len(), words.join(" "));
+    let r = ctx.op(&line);
+    ctx.count("stage_get_ast");
+    if let Some(rest) = r.strip_prefix("ok ") {
+        // the result of get_ast is a Sequence; parse() folds its children
+        let mut it = rest.split_ascii_whitespace();
+        let head = it.next().unwrap_or("");
+        if !head.starts_with('S') {
+            ctx.fail("get_ast returned something that is not a Sequence", &[line]);
+            return;
+        }
+        let fl = format!("fold {} {}", &head[1..], it.collect::<Vec<_>>().join(" "));
+        let fr = ctx.op(&fl);
+        ctx.count("stage_fold_exprs");
+        let want = expect.as_ref().map(|e| bump_term(e, bump));
+        match (parse_result(&fr), &want) {
+            (Some(Ok(t)), Some(e)) => {
+                ctx.nontrivial(&fl);
+                if &t != e {
+                    ctx.fail("get_ast + fold_exprs give a term different from the one the tokens denote", &[line, fl]);
+                }
+            }
+            (Some(Ok(_)), None) => ctx.fail("get_ast + fold_exprs accept an ill-formed token sequence", &[line, fl]),
+            (Some(Err(_)), Some(_)) => ctx.fail("fold_exprs rejects a well-formed expression", &[line, fl]),
+            _ => {}
+        }
+    } else if r.starts_with("err ") && expect.is_some() {
+        ctx.fail("get_ast rejects a well-formed token sequence", &[line]);
     }
 }
 
